@@ -131,6 +131,7 @@ type Exec struct {
 	unsupp    []string
 	epoch     int
 	siteCount map[string]int
+	static    map[string]Val  // Go-side knowledge about values stored into cells (closures, interface payloads)
 	freshRefs map[string]bool // terms denoting references allocated by this function
 	trusted   map[string]bool // externs / models / assumptions used
 	inlined   map[string]bool
@@ -146,7 +147,7 @@ type Exec struct {
 func NewExec(prog *Program) *Exec {
 	return &Exec{smt: NewSMT(), prog: prog, heapSort: map[string]string{}, heap2: map[string]string{},
 		strLits: map[string]string{}, typeIDs: map[string]int{}, fnConsts: map[*ssa.Function]string{},
-		siteCount: map[string]int{}, freshRefs: map[string]bool{}, trusted: map[string]bool{}, inlined: map[string]bool{}}
+		siteCount: map[string]int{}, freshRefs: map[string]bool{}, static: map[string]Val{}, trusted: map[string]bool{}, inlined: map[string]bool{}}
 }
 
 func (x *Exec) warn(format string, a ...any) {
@@ -431,9 +432,25 @@ func (x *Exec) makeIface(st *State, it types.Type, v Val) Val {
 	default:
 		term = x.smt.Fresh("iface", SIface)
 		x.smt.Assert(and(eq(app("ityp", term), tag), not(eq(term, "inil"))))
+		// composite payloads (structs, slices): one accessor function per leaf
+		ls := leavesOf(v.T)
+		if len(ls) == len(v.L) && len(ls) > 1 {
+			var facts []string
+			for i, l := range ls {
+				fn := x.payloadFn(v.T, i, l.Sort)
+				facts = append(facts, eq(app(fn, term), v.L[i]))
+			}
+			x.smt.Assert(and(facts...))
+		}
 	}
 	vv := v
 	return Val{T: it, L: []string{term}, Dyn: &vv}
+}
+
+func (x *Exec) payloadFn(t types.Type, leaf int, sort string) string {
+	name := fmt.Sprintf("ipay.%s.%d", sanitize(types.TypeString(t, nil)), leaf)
+	x.smt.DeclareFun(name, []string{SIface}, sort)
+	return name
 }
 
 // ifacePayload extracts the payload of an interface value as type t.
@@ -456,6 +473,14 @@ func (x *Exec) ifacePayload(st *State, iv Val, t types.Type) Val {
 		return Val{T: t, L: []string{app("ibool", iv.L[0])}}
 	case bvWidth(ss) > 0:
 		return Val{T: t, L: []string{bvResize(app("ibv", iv.L[0]), 64, bvWidth(ss), false)}}
+	}
+	ls := leavesOf(t)
+	if len(ls) > 1 {
+		v := Val{T: t, L: make([]string, len(ls))}
+		for i, l := range ls {
+			v.L[i] = app(x.payloadFn(t, i, l.Sort), iv.L[0])
+		}
+		return v
 	}
 	return x.freshVal(st, "payload", t)
 }
